@@ -188,6 +188,61 @@ def static_binding(chk, repo, rule='R00.1'):
            what='decorator lists of %d reviewed functions compared with '
                 'reviewed/decorators.json' % nfun)
     chk.need(rule, nfun, 300, 'reviewed functions present')
+    # a reviewed method that its class no longer defines itself but inherits
+    # from a helper base class introduced later (same module, no reviewed
+    # counterpart): compared with its reviewed text *as the method of that
+    # subclass* (self.CONST and self.helper() resolve in the subclass first)
+    moved = 0
+    for m in repo.all_mods():
+        classes = dict((c.name, c) for c in m.tree.body
+                       if isinstance(c, ast.ClassDef))
+        for k in sorted(store):
+            rel, q = k.split('::')
+            if rel != m.rel or '.' not in q:
+                continue
+            cname, mname = q.split('.', 1)
+            c = classes.get(cname)
+            if c is None or '.' in mname:
+                continue
+            if any(isinstance(f, ast.FunctionDef) and f.name == mname
+                   or (isinstance(f, ast.Assign) and any(
+                       isinstance(t, ast.Name) and t.id == mname
+                       for t in f.targets)) for f in c.body):
+                continue
+            # inherited now: find it in the module-local ancestors
+            found, seen, cur = None, {cname}, c
+            while found is None:
+                nxt = None
+                for b in cur.bases:
+                    if isinstance(b, ast.Name) and b.id in classes \
+                            and b.id not in seen:
+                        nxt = classes[b.id]
+                        break
+                if nxt is None:
+                    break
+                seen.add(nxt.name)
+                cur = nxt
+                for f in cur.body:
+                    if isinstance(f, ast.FunctionDef) and f.name == mname:
+                        found = f
+            moved += 1
+            if found is None:
+                chk.ob(rule, False, rel, c, key='moved-method:' + q,
+                       qualname=q,
+                       what='%s, a reviewed method, is still defined by its '
+                            'class or a base class of the module' % q)
+                continue
+            found._ctx_cls = c
+            try:
+                ok, oa, ob = reviewed.compare(found, rel, q)
+            finally:
+                found._ctx_cls = None
+            chk.ob(rule, ok, rel, found, key='moved-method:' + q, qualname=q,
+                   what='%s, now inherited from %s, is the reviewed method '
+                        'when read for %s' % (q, cur.name, cname),
+                   found=' || '.join(oa)[:600] if oa else None,
+                   required=' || '.join(ob)[:600] if ob else None)
+    chk.extra['reviewed_methods_now_inherited'] = moved
     # class hierarchy (which inherited methods an object has)
     cpath = os.path.join(os.path.dirname(reviewed.STORE), 'classes.json')
     if not os.path.exists(cpath):
